@@ -422,13 +422,24 @@ impl Catalog {
                         let mut tuple = Tuple::from_slice_unchecked(bytes)?;
                         let xmin = tuple.xmin();
 
-                        let freed = if snapshot.is_transaction_aborted(xmin) || tuple.is_deleted() {
+                        // A delete mark left by an aborted transaction is not a delete: the tuple
+                        // stays, and loses the mark before the aborted ids are forgotten.
+                        let deleter_aborted = tuple
+                            .xmax()
+                            .is_some_and(|xmax| snapshot.is_transaction_aborted(xmax));
+
+                        let freed = if snapshot.is_transaction_aborted(xmin)
+                            || (tuple.is_deleted() && !deleter_aborted)
+                        {
                             let freed = tuple.full_data().len();
                             tuples_to_remove.push(tuple);
                             freed
                         } else {
+                            if deleter_aborted {
+                                tuple.set_xmax(None);
+                            }
                             let freed = tuple.vaccum_with(oldest_active_xid, schema)?;
-                            if freed > 0 {
+                            if freed > 0 || deleter_aborted {
                                 tuples_to_vaccum.push(tuple);
                             };
                             freed
